@@ -105,7 +105,9 @@ class Ctx:
             return self._bins[key]
         src, extra = self._harness_modfile()
         out = os.path.join(self.work, name + ("_race" if race else ""))
-        cmd = ["go", "build", "-tags", "verif"] + (["-race"] if race else []) + ["-o", out, "./cmd/" + name]
+        # -race switches on checkptr, which aborts inside the transpiled PCRE library falco depends on
+        # (pointer arithmetic of C origin): keep the race detector, switch checkptr off
+        cmd = ["go", "build", "-tags", "verif"] + (["-race", "-gcflags=all=-d=checkptr=0"] if race else []) + ["-o", out, "./cmd/" + name]
         t = time.time()
         p = subprocess.run(cmd, cwd=src, env=goenv(True), capture_output=True, text=True)
         if p.returncode != 0:
